@@ -33,35 +33,35 @@ CLAIMED = {
  "C07": dict(cat="other", tech="formula conformance of auc() against a reference term (value numbering with rate stubs) + exact evaluation of the fully inlined closed form on order-type representatives against Mann-Whitney / step area",
    text="auc() equals, as a term, the reference construction (sorted float neighbours of all scores, own rates on both axes, joint reversal, closed window via searchsorted sides and clamps, flat extension, |trapezoid(y,x)|) for 4 axis pairs; on representatives (ties, easy samples, 4 configurations, 5 windows) the derived closed form equals the Mann-Whitney statistic and the exact step area (bounded).",
    ref="DESIGN §4 C07"),
- "C13": dict(cat="other", tech="formula conformance: specialisation of utils.bootstrap_ci per method, value numbering with shape bookkeeping dropped and masked gather/scatter lifted, named-axis role inference for the quantile branch",
-   text="The derived level terms of quantile/bc/bca equal the documented formulas in normal form (alpha/2 and 1-alpha/2 over the replicate axis; z0 from #{theta<=theta_hat}/#{not NaN}; 2 z0 + z_alpha; acceleration nansum(d^3)/(6 nansum(d^2)^1.5) with 0 fallback; adjusted level where z0 finite; per-component nanquantile over axis 0) and the quantile branch delivers axes metric+alpha+(lower,upper). Ordering/nesting corollaries are not separately decided.",
+ "C13": dict(cat="other", tech="formula conformance: specialisation of utils.bootstrap_ci per method, value numbering with shape bookkeeping dropped and masked gather/scatter lifted, named-axis role inference for the quantile branch; effect analysis of the three branches (arguments read-only)",
+   text="The derived level terms of quantile/bc/bca equal the documented formulas in normal form (alpha/2 and 1-alpha/2 over the replicate axis; z0 from #{theta<=theta_hat}/#{not NaN}; 2 z0 + z_alpha; acceleration nansum(d^3)/(6 nansum(d^2)^1.5) with 0 fallback; adjusted level where z0 finite; per-component nanquantile over axis 0) and the quantile branch delivers axes metric+alpha+(lower,upper). Ordering/nesting corollaries are not separately decided. The caller's replicate array, estimate and alpha are not written in place in any branch.",
    ref="DESIGN §4 C13"),
  "C10": dict(cat="other", tech="alias and effect analysis on the abstract evaluator (storage roots through view operators; in-place writes, attribute stores, RNG reachability) over ~180 public callables; elementwise-dependence check of derived terms; alias forwarding",
    text="Sufficient condition for 'no query mutates the object or caller arrays and repeats give identical results': over all public deterministic callables (symbolic arguments, every path) no subscript store / augmented assignment / out= / .sort() / shuffle reaches parameter or receiver storage, no attribute is re-bound outside constructors, no random draw is reachable (with a positive control). cm() writes (..., i, j) cells of a (*t.shape, 2, 2) buffer with terms elementwise in t; rates and thresholds are elementwise in their argument; aliases forward every parameter.",
    ref="DESIGN §4 C10"),
- "C14": dict(cat="other", tech="abstract evaluation of the replicate loop and CI assembly with stubbed sampler/metric (parametric loop iteration, virtual dispatch, type(self) resolution), entropy-source reachability over all sampling paths, plus the C13 formula rules",
-   text="Row j is the metric of the sample drawn in iteration j by the receiver's own bootstrap_sample with the caller's config and kwargs (both classes, name and callable metrics); bootstrap_ci passes replicates, metric(self, **kwargs), alpha and config.bootstrap_method to the (verified) formula; a callable sampler's result is used unchanged; all random draws come from the global numpy.random state.",
+ "C14": dict(cat="other", tech="abstract evaluation of the replicate loop and CI assembly with stubbed sampler/metric (parametric loop iteration, virtual dispatch, type(self) resolution), entropy-source reachability over all sampling paths, plus the C13 formula rules; sampler-dispatch and sortedness-typestate prerequisites",
+   text="Row j is the metric of the sample drawn in iteration j by the receiver's own bootstrap_sample with the caller's config and kwargs (both classes, name and callable metrics); bootstrap_ci passes replicates, metric(self, **kwargs), alpha and config.bootstrap_method to the (verified) formula; a callable sampler's result is used unchanged; all random draws come from the global numpy.random state. Prerequisites re-decided: the configured stratification reaches the index sampler (R11.7) and every sample construction site is in the ordered typestate (R01.4).",
    ref="DESIGN §4 C14"),
- "C15": dict(cat="other", tech="abstract evaluation of roc() with the Scores API stubbed: multiset-preserving threshold construction, reversal-parity against the rate direction derived from cm(), count algebra, derived views; purity prerequisite of the setters",
-   text="FNR/FPR are the object's rates at the returned array; every supplied threshold and setter(supplied rate) is contained; the number of reversals after the ascending sort matches the direction of the x-axis metric for all 8 axis names x 4 configurations; default supports have nb_points (or one per scored sample) points; the 12 derived views are complements/aliases.",
+ "C15": dict(cat="other", tech="abstract evaluation of roc() with the Scores API stubbed: multiset-preserving threshold construction, reversal-parity against the rate direction derived from cm(), count algebra, derived views; purity prerequisite of the setters; per-path containment; effect analysis of the support helper in roc() mode",
+   text="FNR/FPR are the object's rates at the returned array; every supplied threshold and setter(supplied rate) is contained; the number of reversals after the ascending sort matches the direction of the x-axis metric for all 8 axis names x 4 configurations; default supports have nb_points (or one per scored sample) points; the 12 derived views are complements/aliases. Containment holds on every path feasible with non-empty supplied arrays; supplied fnr/fpr/thresholds are only read.",
    ref="DESIGN §4 C15"),
- "C16": dict(cat="other", tech="call conformance of all statically resolvable internal call sites; stubbed exploration of the band functions (joint metric, unpack order, rule-of-three arguments, mirrored envelope calls); exact evaluation of trigger conditions on the integer grid; envelope formula and effect analysis",
-   text="All 185 resolvable internal calls bind (the experimental band functions' helper calls included); each band function evaluates rates at its thresholds, bootstraps stack([FNR@FPR, FPR@FNR]) with the caller's alpha/config, unpacks in that order, gives the rule of three the denominator of the corrected rate, and builds bands from mirrored envelope calls; the correction triggers select exactly counts 0 and n; the envelope is min/max over rectangles whose closed x-interval contains the point, computed on copies. NaN-freeness under random samplers is not decided.",
+ "C16": dict(cat="other", tech="call conformance of all statically resolvable internal call sites; stubbed exploration of the band functions (joint metric, unpack order, rule-of-three arguments, mirrored envelope calls); exact evaluation of trigger conditions on the integer grid; envelope formula and effect analysis; effect analysis of the support helper with extra points; sample well-formedness prerequisite (R11.1/R11.5/R11.8)",
+   text="All 185 resolvable internal calls bind (the experimental band functions' helper calls included); each band function evaluates rates at its thresholds, bootstraps stack([FNR@FPR, FPR@FNR]) with the caller's alpha/config, unpacks in that order, gives the rule of three the denominator of the corrected rate, and builds bands from mirrored envelope calls; the correction triggers select exactly counts 0 and n; the envelope is min/max over rectangles whose closed x-interval contains the point, computed on copies. NaN-freeness under random samplers is not decided. Supplied arrays are only read (with and without extra points); every built-in sampler delivers at least one scored positive and negative (prerequisite of setting thresholds at FNR/FPR on each replicate).",
    ref="DESIGN §4 C16"),
- "C11": dict(cat="other", tech="path-by-path abstract evaluation of bootstrap_sample/_sample_indices over the built-in configuration matrix; count algebra in normal form; interval facts with guard refinement for delivered sizes; sortedness typestate; pos/neg mirror lint",
-   text="Decides the structural clauses on every path: flags forwarded, each class drawn from the source's same class, requested strata sum to the source total (by_label: the four source strata), proportion sizes, delivered class sizes have lower bound 1, is_sorted only with provably ascending arrays, exact pos/neg duality of the sampling code, dynamic-method resolution. Unbiasedness and reachability in distribution are not decided.",
+ "C11": dict(cat="other", tech="path-by-path abstract evaluation of bootstrap_sample/_sample_indices over the built-in configuration matrix; count algebra in normal form; interval facts with guard refinement for delivered sizes; sortedness typestate; pos/neg mirror lint; sampler-dispatch stub comparison; effect analysis (no in-place write reaches the source arrays)",
+   text="Decides the structural clauses on every path: flags forwarded, each class drawn from the source's same class, requested strata sum to the source total (by_label: the four source strata), proportion sizes, delivered class sizes have lower bound 1, is_sorted only with provably ascending arrays, exact pos/neg duality of the sampling code, dynamic-method resolution. Unbiasedness and reachability in distribution are not decided. Also decided: _sample_indices is called with by_label exactly when stratified_sampling=='by_label' and single_pass exactly on the single-pass path; no sampling path writes the source's arrays in place.",
    ref="DESIGN §4 C11"),
- "C12": dict(cat="other", tech="alignment typestate over derived index terms for every construction site of GroupScores; per-group extraction and stacking order from symbolic evaluation; prerequisites (sampler count algebra, sortedness)",
-   text="(scores, labels) pairs stay aligned through __init__ (one argsort per pair), from_labels (one mask), swap and all 9 built-in sampling configurations incl. lock-step by-group appends; self[g] selects each class by its own labels with the receiver's flags; group_cm stacks over self.groups in order; samples keep the name list; default names are the sorted union; by-group sampling uses the size-preserving non-stratified sampler per group.",
+ "C12": dict(cat="other", tech="alignment typestate over derived index terms for every construction site of GroupScores; per-group extraction and stacking order from symbolic evaluation; prerequisites (sampler count algebra, sortedness); cache-coherence analysis over the history index -> swap/bootstrap_sample -> index; groupwise stacking order; dynamic-method resolution under by-group stratification",
+   text="(scores, labels) pairs stay aligned through __init__ (one argsort per pair), from_labels (one mask), swap and all 9 built-in sampling configurations incl. lock-step by-group appends; self[g] selects each class by its own labels with the receiver's flags; group_cm stacks over self.groups in order; samples keep the name list; default names are the sorted union; by-group sampling uses the size-preserving non-stratified sampler per group. Also decided: an object derived (swap, every sampling configuration) from one whose per-group cache is filled has an empty cache or its own extraction in it; groupwise(metric) maps over obj.groups in order with kwargs forwarded; dynamic + by_group resolves to replacement.",
    ref="DESIGN §4 C12"),
- "C19": dict(cat="proof", tech="constant folding of the two enums; symbolic exploration of FraudScores.__init__/from_labels (state on every path, raise-condition set); override scan of the class body",
-   text="Translations are mutually inverse on all members and values; every normal constructor path leaves exactly the Scores state of the claimed view and the raise conditions are exactly the two out-of-[0,1] tests; no query method is overridden, so every query is Scores' code on that state; from_labels splits by ==/!= genuine_label and forwards all parameters.",
+ "C19": dict(cat="proof", tech="constant folding of the two enums; symbolic exploration of FraudScores.__init__/from_labels (state on every path, raise-condition set); override scan of the class body; symbolic evaluation of the alias setters; class-blindness of inherited equality (semantic comparison across receiver classes) with a scan for other class-sensitive constructs",
+   text="Translations are mutually inverse on all members and values; every normal constructor path leaves exactly the Scores state of the claimed view and the raise conditions are exactly the two out-of-[0,1] tests; no query method is overridden, so every query is Scores' code on that state; from_labels splits by ==/!= genuine_label and forwards all parameters. Alias setters store into the aliased attribute only; FraudScores == Scores (both orders) has the outcome of Scores == Scores on identical state.",
    ref="DESIGN §4 C19"),
  "C17": dict(cat="other", tech="symbolic extraction of the crossing mask and appended values from the parametric loops; exact evaluation of the predicates over all weak orderings of (y_j, y_j+1, t); rank inference; polynomial identity of the interpolation; stubbed threshold_at_metric",
    text="Over all 13 weak orderings a reported crossing implies y_j != y_j+1 and lambda in [0,1) (each touching point attributed to one segment, no zero division), up/down predicates are disjoint and no interior solution is missed; z solves the interpolant identically; every appended value has rank 0; the fallback is x[argmin|y-t|] iff no crossing; threshold_at_metric feeds one points value to x and to the metric for its three point modes and resolves names on type(self).",
    ref="DESIGN §4 C17"),
- "C18": dict(cat="other", tech="abstract evaluation of showbias with stubbed group_cm/cm/bootstrap helpers over 12 option combinations: data flow into GroupScores.from_labels, key-codec analysis, normalisation formula and reduced-axis role at both call sites, value-number equality of theta_hat and reported values, shared labels; C12 prerequisites",
-   text="Inputs (scores, labels, groups, pos_label, score_class, equal_class) reach GroupScores.from_labels; values are the requested metric of group_cm, divided by the metric of cm or by the minimum over groups unless 0; the row index is built from score_object.groups and columns are the thresholds; replicates pass through the same normalisation, theta_hat equals the reported values, lower/upper share the labels. Two genuine defects are recorded as known findings (lossy '_' key codec; by_min reduces the replicate axis).",
+ "C18": dict(cat="other", tech="abstract evaluation of showbias with stubbed group_cm/cm/bootstrap helpers over 12 option combinations: data flow into GroupScores.from_labels, key-codec analysis, normalisation formula and reduced-axis role at both call sites, value-number equality of theta_hat and reported values, shared labels; C12 prerequisites; from_labels mask-alignment prerequisite",
+   text="Inputs (scores, labels, groups, pos_label, score_class, equal_class) reach GroupScores.from_labels; values are the requested metric of group_cm, divided by the metric of cm or by the minimum over groups unless 0; the row index is built from score_object.groups and columns are the thresholds; replicates pass through the same normalisation, theta_hat equals the reported values, lower/upper share the labels. Two genuine defects are recorded as known findings (lossy '_' key codec; by_min reduces the replicate axis). Prerequisite re-decided: GroupScores.from_labels selects scores and group labels of each class by one mask.",
    ref="DESIGN §4 C18"),
  "C20": dict(cat="other", tech="closed-form reduction of the scipy.stats.norm calls to the standard normal with inverse-pair identities; polynomial identities for the joint Bernoulli table; count terms of the non-random branches",
    text="fnr/threshold_at_fnr and fpr/threshold_at_fpr compose to the identity in both orders, roc() rates are the model's rates at its thresholds, from_metrics reproduces the requested operating point and sizes, sample() sizes sum to n with the model's direction, non-random Bernoulli draws floor(n p) ones, the joint table sums to 1 with marginals p1, p2 under the decoding, equals the documented a, raises exactly on a negative entry and uses floor counts with the remainder in the last cell. Random branches are not decided.",
